@@ -139,6 +139,8 @@ type c26Run struct {
 	maxBatch uint64
 	remeas   int64
 	single   bool
+	tripped  bool
+	skipped  int64
 }
 
 func (k *c26Run) measure(f func()) uint64 {
@@ -170,6 +172,11 @@ func (k *c26Run) add(section string, hdr [wire.HeaderSize]byte, maxBody, avail i
 	c.valid, _ = c26Valid(f, maxBody)
 	// never drive ReadFrame into a legitimately huge body allocation
 	c.drove = !c.valid || int64(f.BodyLen) <= c26MaxDrivenBody
+	if k.tripped && !c.valid && f.BodyLen > c26RejectCeiling {
+		// an early body allocation is already reported: do not keep allocating gigabytes
+		c.drove = false
+		k.skipped++
+	}
 	k.batch = append(k.batch, c)
 	if len(k.batch) >= c26Batch {
 		k.flush()
@@ -208,6 +215,7 @@ func (k *c26Run) flush() {
 			c.reset()
 			alloc := k.measure(func() { c26ReadFrame(c) })
 			if alloc > c26RejectCeiling {
+				k.tripped = true
 				k.violate(c, "body-allocated-before-header-validation", "ReadFrame allocated %d bytes (> %d) for a header that must be rejected; err=%v", alloc, c26RejectCeiling, c.rerr)
 			}
 		}
@@ -411,7 +419,7 @@ func TestVerifC26Wire(t *testing.T) {
 	}
 	k.flush()
 	prod := k.e
-	prod.Done(true, map[string]any{"magic": len(magics), "version": len(versions), "flags": len(flags), "kind": len(kinds), "priority": len(prios), "service": len(services),
+	prod.Done(!k.tripped, map[string]any{"magic": len(magics), "version": len(versions), "flags": len(flags), "kind": len(kinds), "priority": len(prios), "service": len(services),
 		"request": len(requests), "reserved": len(reserved), "max_body": maxes, "body_len": "0,1,16KiB+1,max-1,max,max+1,2max,2^31-1,2^31,2^32-1"},
 		"full cross product of the per-field menus; each case: DecodeHeader + ReadFrame over a recording reader")
 
@@ -435,7 +443,7 @@ func TestVerifC26Wire(t *testing.T) {
 	}
 	k.flush()
 	sq := k.e
-	sq.Done(true, map[string]any{"kind": 256, "priority": 256, "max_body": limits}, "all 65536 kind/priority pairs x body lengths around each limit, other fields valid")
+	sq.Done(!k.tripped, map[string]any{"kind": 256, "priority": 256, "max_body": limits}, "all 65536 kind/priority pairs x body lengths around each limit, other fields valid")
 
 	// ---- 3. every single-byte mutation of valid headers (each flag / reserved / magic bit pattern)
 	k.e = r.NewEnum("single-byte-mutation")
@@ -459,7 +467,7 @@ func TestVerifC26Wire(t *testing.T) {
 	}
 	k.flush()
 	mu := k.e
-	mu.Done(true, map[string]any{"base_headers": len(bases), "positions": wire.HeaderSize, "values": 256, "body_available": "complete, half"}, "every position x every byte value of valid headers")
+	mu.Done(!k.tripped, map[string]any{"base_headers": len(bases), "positions": wire.HeaderSize, "values": 256, "body_available": "complete, half"}, "every position x every byte value of valid headers")
 
 	// ---- 4. truncated headers: the reader ends before 24 bytes
 	k.e = r.NewEnum("truncated-header")
@@ -470,16 +478,17 @@ func TestVerifC26Wire(t *testing.T) {
 		}
 	}
 	tr := k.e
-	tr.Done(true, map[string]any{"prefix_lengths": "0..23"}, "every strict prefix of valid headers: DecodeHeader and ReadFrame must fail")
+	tr.Done(!k.tripped, map[string]any{"prefix_lengths": "0..23"}, "every strict prefix of valid headers: DecodeHeader and ReadFrame must fail")
 
 	// ---- 5. struct -> bytes -> struct and frame streams through the real writer and reader
 	k.e = r.NewEnum("frame-stream")
 	c26Streams(k, th)
 	st := k.e
-	st.Done(true, map[string]any{"kinds": "0..7,255", "priorities": "0..6,255", "body_lens": "0,1,511,512,513,4096,4097,65537"}, "Header struct menu through EncodeHeader/DecodeHeader; every ordered pair of frames through WriteFrames + 2 x ReadFrame")
+	st.Done(!k.tripped, map[string]any{"kinds": "0..7,255", "priorities": "0..6,255", "body_lens": "0,1,511,512,513,4096,4097,65537"}, "Header struct menu through EncodeHeader/DecodeHeader; every ordered pair of frames through WriteFrames + 2 x ReadFrame")
 
 	r.Count("max_batch_alloc_bytes", int64(k.maxBatch))
 	r.Count("rejected_calls_remeasured_individually", k.remeas)
+	r.Count("readframe_calls_skipped_after_early_allocation_was_reported", k.skipped)
 	r.Guard("product-has-valid-and-every-malformed-class", prod.Outcome("valid") >= 1 && prod.Outcome("bad-magic") >= 1 && prod.Outcome("bad-version") >= 1 && prod.Outcome("bad-flags") >= 1 &&
 		prod.Outcome("bad-reserved") >= 1 && prod.Outcome("bad-kind") >= 1 && prod.Outcome("bad-priority") >= 1 && prod.Outcome("oversize-body") >= 1,
 		"valid=%d magic=%d version=%d flags=%d reserved=%d kind=%d priority=%d oversize=%d", prod.Outcome("valid"), prod.Outcome("bad-magic"), prod.Outcome("bad-version"), prod.Outcome("bad-flags"),
